@@ -48,6 +48,11 @@ void TruncatedExponentialDiscreteDistribution::fireParameterChanged(const Parame
 
 void TruncatedExponentialDiscreteDistribution::restrictToConstraint(const ConstraintInterface& c)
 {
+  // The truncation point becomes constrained by the restricted domain: it has to lie in it
+  // (checked before anything is modified).
+  if (!c.isCorrect(tp_))
+    throw ConstraintException("TruncatedExponentialDiscreteDistribution::restrictToConstraint", &getParameter_("tp"), tp_);
+
   AbstractDiscreteDistribution::restrictToConstraint(c);
   getParameter_("tp").setConstraint(intMinMax_);
 }
